@@ -12,6 +12,9 @@ Driver for the `pickle` machine (C16).  Stateless, one request per line.
   rebuild <n> <radixes> <g;rad;npar&...> <gi;loc;par+.../...>
       -> <circuit> | err <class>          (arbitrary payload: the malformed stream)
   eqhash <op> <op>          -> eq=<bool> hasheq=<bool> geq=<bool> ghasheq=<bool>
+  eqblock <radixes> <op+op..|-> | <radixes> <op+..|->   -> CircuitGate.__eq__ (fixed code)
+  eqcirc <circuit> | <circuit>                          -> Circuit.__eq__ (fixed code)
+  graphhash <n> <a,b,a,b..> | <a,b,..>                  -> hashes of two edge listings agree
   errmul <p/q> <p/q> ...    -> folded update_error_mul, exact
   pd <become|copy|update|set k v|get k> <rec> | <rec>
       rec: t e m p i f s k=v,k=v      (values are naturals)
@@ -96,6 +99,24 @@ def step (line : String) : String :=
      | some a, some b =>
        s!"eq={a.eqOp b} hasheq={a.hashOp == b.hashOp} geq={a.gate == b.gate} ghasheq={a.gate.hash == b.gate.hash}"
      | _, _ => "bad-op")
+  | [["eqblock", ra, a], [rb, b]] =>
+    -- CircuitGate.__eq__: radixes, then (gate, location) sequences in iteration order
+    (match splitNats ra, splitNats rb,
+       (if a == "-" then some [] else (a.splitOn "+").mapM parseOp),
+       (if b == "-" then some [] else (b.splitOn "+").mapM parseOp) with
+     | some ra, some rb, some a, some b =>
+       let f (o : Op) : GateId × List Nat := (⟨o.gid, o.rad, o.par.length⟩, o.loc)
+       toString (ra == rb && eqSeq (a.map f) (b.map f))
+     | _, _, _, _ => "bad-op")
+  | [["eqcirc", ca], [cb]] =>
+    (match parseCirc ca, parseCirc cb with
+     | some a, some b =>
+       toString (eqCircuit a.radixes (a.iterKahn.map (·.2)) b.radixes (b.iterKahn.map (·.2)))
+     | _, _ => "bad-op")
+  | [["graphhash", n, a], [b]] =>
+    (match n.toNat?, nats (a.splitOn ","), nats (b.splitOn ",") with
+     | some n, some a, some b => toString (graphHash n (pairs a) == graphHash n (pairs b))
+     | _, _, _ => "bad-op")
   | ["errmul" :: xs] =>
     (match xs.mapM parseRat with
      | some (x :: rest) => showRat (rest.foldl errMul x)
